@@ -36,7 +36,9 @@ package scheduler
 // deduplication map, and only when the task is final (not on the retry on the
 // largest size class).
 //@ func (*task).complete
-//@   props C03
+//@   props C03 C01
+//@   ensures completing-a-queued-task-takes-it-out-of-the-queue:
+//@             old(t.executeResponse) == nil && old(t.currentWorker) == nil ==> unqueued(t) == 1
 //@   requires executeResponse != nil
 //@   ensures entries-of-other-tasks-untouched:
 //@             forall d digest.Digest ::
@@ -148,9 +150,10 @@ package scheduler
 //@   ensures armed-with-the-given-deadline: *key != 0 && armedat(key) == timestamp
 //@ func (*cleanupQueue).remove
 //@   props C06
-//@   trusted -- abstract contract of the clean-up heap: removing an entry clears the key variable the entry points to and renumbers others; modelled as: every clean-up key variable may change
+//@   trusted -- abstract contract of the clean-up heap: removing an entry clears the key variable the entry points to and may renumber the other active keys
 //@   pure
 //@   havoc M:Int:pkg/scheduler.cleanupKey
+//@   ensures forall p *cleanupKey :: (old(*p) == key ==> *p == 0) && (old(*p) != key && old(*p) != 0 ==> *p != 0) && (old(*p) == 0 ==> *p == 0)
 
 //@ func (*InMemoryBuildQueue).Synchronize
 //@   props C06
@@ -174,3 +177,34 @@ package scheduler
 //@   props C06
 //@   at call removeQueuedFromInvocation#1 ghostset climbing[nil] = 1
 //@   at call delete#2 assert emptied-ancestors-are-removed-up-to-the-first-live-one: climbing(nil) == 1 ==> lastremoved(nil) == 0
+
+// ---------------------------------------------------------------------------
+// Tasks are held by the queue or by a worker, never by both or neither (C01)
+//
+// unqueued(t): this call took task t out of the queue (assignQueuedTask).
+//@ ghost map unqueued(ref) int zero
+//@ func (*worker).assignQueuedTask
+//@   props C01
+//@   ghostset unqueued[t] = old(unqueued(t)) + 1
+//@   ensures held-by-exactly-this-worker: w.currentTask == t && t.currentWorker == w
+//@ func (*worker).assignUnqueuedTask
+//@   props C01
+//@   ensures held-by-exactly-this-worker: w.currentTask == t && t.currentWorker == w
+// An invocation stays in its parent's heap of queued children exactly as long
+// as something is still queued in it or below it.
+//@ func (*operation).removeQueuedFromInvocation
+//@   props C01
+//@   at call heapRemoveOrFix#1 assert stays-queued-iff-something-is-queued-in-or-below:
+//@             arg2 == len(i.queuedChildren) + len(i.queuedOperations) && arg0 == &i.parent.queuedChildren && arg1 == i.queuedChildrenIndex
+
+// ---------------------------------------------------------------------------
+// Waiters get the task's result, and an operation somebody waits on is not
+// collected as abandoned (C02)
+//@ func (*operation).waitExecution
+//@   props C02
+//@   assume o.waiters < 1000000000 -- an operation does not have 2^64 concurrent waiters
+//@   loop 0 invariant o.cleanupKey == 0 && o.waiters >= 1 && o == old(o) && bq == old(bq)
+//@   at call leave#1 assert waited-on-operations-are-not-collected: o.cleanupKey == 0 && o.waiters >= 1
+//@   at call enter#3 assume_post o.cleanupKey == 0 && o.waiters >= 1 -- rely: while this call is counted in o.waiters no other thread arms the operation's clean-up entry (maybeStartCleanup requires waiters == 0) and the count stays positive
+//@   at call enter#4 assume_post o.cleanupKey == 0 && o.waiters >= 1 -- rely: as above
+//@   at call Send#1 assert final-message-iff-the-task-has-its-response: operation.Done == (o.task.executeResponse != nil) && operation.Name == o.name
